@@ -240,6 +240,20 @@ Int, Real, Bool, Str, Any = _TInt(), _TReal(), _TBool(), _TStr(), _TAny()
 
 
 # ---------------------------------------------------------------------------- Opt
+class _OptLoc:
+    """location of the payload of an Opt value stored at `parent` (for mutable payloads)"""
+    __slots__ = ("parent", "dt")
+
+    def __init__(self, parent, dt):
+        self.parent, self.dt = parent, dt
+
+    def get(self):
+        return self.dt.val(self.parent.get())
+
+    def set(self, t):
+        self.parent.set(self.dt.some(t))
+
+
 class Opt(Ty):
     def __init__(self, inner):
         self.inner = inner
@@ -259,7 +273,7 @@ class Opt(Ty):
         term = z3.simplify(term)
         if _c().branch(self.dt.is_none(term), site=None):
             return None
-        return self.inner.wrap(self.dt.val(term), loc)
+        return self.inner.wrap(self.dt.val(term), _OptLoc(loc, self.dt) if loc is not None else None)
 
     def unwrap(self, v):
         if v is None:
@@ -437,9 +451,10 @@ class Fn(Ty):
         nm = self._n
 
         def call(*a, **k):
-            if ret is None:
-                return None
-            return ret.fresh(f"{nm}_ret")
+            r = None if ret is None else ret.fresh(f"{nm}_ret")
+            # ghost log of calls of unknown callables: (callable id term, args, kwargs, result)
+            _c().ghost_args.setdefault("fn_calls", []).append((term, a, k, r))
+            return r
         call._pyvc_fn_term = term
         return call
 
